@@ -67,6 +67,7 @@ type stmt struct {
 }
 
 type result struct {
+	doc     []byte // the document decoded (for format-specific rules that need the text)
 	stmts   []stmt
 	verdict string
 	err     error
@@ -192,6 +193,7 @@ func decode(c cfg, doc []byte) (res result) {
 			res.verdict = "panic"
 		}
 	}()
+	res.doc = doc
 	f := blanknodes.NewStringFactory()
 	prov := f.(blanknodes.StringProviderProvider).GetStringProvider(blanknodes.NewInt64StringProvider("?anon%d"))
 	res.label = prov.GetBlankNodeString
